@@ -1,16 +1,21 @@
 """C13 — fail-closed Python-`ast` translator: bct source  ->  programs of Model/AliasLang.v (Gen/Alias.v).
 
-Every function reachable from the bct namespace (public functions, the private helpers they call, and
-lambda-lifted nested defs) becomes one `fundef`.  The translation is purely SYNTACTIC (which names an
-expression may share memory with; which statements write through a name); all flow-sensitive reasoning is
-done by the Coq checker `may_alias_params`, of which `ai` below is a line-by-line Python mirror used only
-to GUESS the summaries (fmut / fret / fcontract) that Coq then verifies (`summaries_ok`) on every run.
+Every function reachable from the bct namespace (public functions, the private helpers they call, lambda-lifted nested
+defs, and bct/nbs_parallel.py) becomes one `fundef`.  The translation is purely SYNTACTIC (which names an expression may
+share memory with; which statements write through a name); all flow-sensitive reasoning is done by the Coq checker
+`may_alias_params`, of which `ai` below is a line-by-line Python mirror used only to GUESS the summaries (fmut / fret /
+fcontract) that Coq then verifies (`summaries_ok`) on every run.
 
 Fail-closed rules
   * an expression whose aliasing is not understood evaluates to Unknown (may point anywhere);
-  * a call that is not a known-pure NumPy/builtin routine nor a bct function writes (Mutate) through every
-    name its arguments / receiver may alias, and returns Unknown;
+  * a call is trusted only if the routine is WHITELISTED below and the call has the shape the entry was verified for (at
+    most `arity` positional arguments, benign keywords only); `copy=` (not literally True), `out=`, `overwrite_*=`,
+    `inplace=` are honoured for every routine; anything else writes (Mutate) through every name its arguments / receiver
+    may alias, and returns Unknown;
+  * a parameter documented as a scalar that the body writes through BY NAME (`itr *= k`), or hands as is to a callee that
+    does, is an array (`promoted`); Gen/Alias.v also carries the program in which the numpydoc kind is believed (`_ds`);
   * an unsupported statement makes the whole function body `Bind $u Unknown; Mutate $u` (always rejected).
+`corpus_check` (harness/translate_alias_corpus) and `table_selfcheck` pin these rules; c13.py runs both at every check.
 """
 import ast, os, re, sys, json, hashlib
 
@@ -1813,8 +1818,6 @@ def analyse(repo):
 
 def render(res, repo):
     funs, flagged, hopeless = res['funs'], res['flagged'], res['hopeless']
-    if res.get('ds') is None and res.get('promoted'):
-        res = dict(res)     # the weaker program could not be aligned with the strict one: fall back to the strict one
 
     L = []
     L.append('(* Gen/Alias.v — GENERATED by harness/translate_alias.py from the bct sources on every run. DO NOT EDIT.')
